@@ -82,7 +82,7 @@ DT_BIN = ("float64", "float32", "int64", "int32", "uint8", "bool")       # 0/1 m
 DT_COUNT = ("float64", "float32", "int64", "int32", "uint8")             # small non-negative integers
 DT_SIGNED = ("float64", "float32", "int64", "int32")                     # small signed integers
 DT_FLOAT = ("float64",)                                                  # anything else: layouts only
-LAYOUTS = ("C", "F", "T", "slice", "stride")
+LAYOUTS = ("C", "F", "T", "slice", "stride", "negzero")
 PLAIN = ("float64", "C")
 
 
@@ -115,6 +115,12 @@ def as_variant(A, dtype="float64", layout="C"):
     B = A.astype(dtype)
     if A.shape != B.shape or not np.array_equal(B.astype(float), A.astype(float), equal_nan=True):
         raise core.MachineryError("lossy cast of an input to %s" % dtype)
+    if layout == "negzero":                 # absent connections stored as -0.0 (what `sign(R) * (R > thr)`
+        B = np.ascontiguousarray(B)         # or np.round of small negative values leave behind): same values
+        if B.dtype.kind == "f":
+            B = B.copy()
+            B[B == 0] = -0.0
+        return B
     if B.ndim != 2 or layout == "C":
         return np.ascontiguousarray(B)
     if layout == "F":
